@@ -44,9 +44,66 @@ type Case struct {
 	Init    []eng.Res  `json:"init,omitempty"`
 	Pre     []eng.Step `json:"pre,omitempty"`
 	Ops     []eng.Op   `json:"ops"`
+	Ext     []OpExt    `json:"ext,omitempty"` // per operation (same index as Ops; may be shorter): options outside the model
 	Sched   []int      `json:"sched"`
 	Note    string     `json:"note,omitempty"`
 	Probe   string     `json:"probe,omitempty"` // "memory-lock-discipline": run MemoryLockProbe (no operations)
+}
+
+// OpExt carries options of the real actions that Engine/Ops.v does not have: the model's lock
+// path does not depend on them (Engine/ConcFlags.v), so an operation that carries them must behave,
+// on every observable C09 compares, exactly like the operation without them.  The generator
+// varies them on the concurrent operations so that a change which makes the pending check,
+// the name check or the create-before-mutate order depend on one of them meets a failing input.
+type OpExt struct {
+	Force          bool   `json:"force,omitempty"`            // install / upgrade / rollback --force (resource replacement through PUT)
+	Recreate       bool   `json:"recreate,omitempty"`         // upgrade / rollback --recreate-pods
+	ViaUpgrade     bool   `json:"via_upgrade,omitempty"`      // Upgrade.Install (helm upgrade --install)
+	SkipSchema     bool   `json:"skip_schema,omitempty"`      // SkipSchemaValidation
+	SubNotes       bool   `json:"sub_notes,omitempty"`        // SubNotes
+	EnableDNS      bool   `json:"enable_dns,omitempty"`       // EnableDNS
+	NoValidate     bool   `json:"no_validate,omitempty"`      // DisableOpenAPIValidation
+	ResetValues    bool   `json:"reset_values,omitempty"`     // upgrade --reset-values
+	ReuseValues    bool   `json:"reuse_values,omitempty"`     // upgrade --reuse-values
+	ResetThenReuse bool   `json:"reset_then_reuse,omitempty"` // upgrade --reset-then-reuse-values
+	SkipCRDs       bool   `json:"skip_crds,omitempty"`        // install --skip-crds
+	Label          string `json:"label,omitempty"`            // one custom (non-system) release label
+	Description    string `json:"description,omitempty"`      // --description
+}
+
+// Any: some option is set.
+func (x OpExt) Any() bool { return x != OpExt{} }
+
+// Tags names the options that are set (for Class()).
+func (x OpExt) Tags() []string {
+	var t []string
+	add := func(b bool, n string) {
+		if b {
+			t = append(t, n)
+		}
+	}
+	add(x.Force, "force")
+	add(x.Recreate, "recreate")
+	add(x.ViaUpgrade, "via-upgrade")
+	add(x.SkipSchema, "skip-schema")
+	add(x.SubNotes, "sub-notes")
+	add(x.EnableDNS, "dns")
+	add(x.NoValidate, "no-validate")
+	add(x.ResetValues, "reset-values")
+	add(x.ReuseValues, "reuse-values")
+	add(x.ResetThenReuse, "reset-then-reuse")
+	add(x.SkipCRDs, "skip-crds")
+	add(x.Label != "", "label")
+	add(x.Description != "", "description")
+	return t
+}
+
+// ExtOf: the extra options of operation i (zero value when the case has none).
+func (c Case) ExtOf(i int) OpExt {
+	if i < len(c.Ext) {
+		return c.Ext[i]
+	}
+	return OpExt{}
 }
 
 type OpObs struct {
@@ -364,8 +421,12 @@ func ledger(inner driver.Driver) []eng.LedgerRow {
 }
 
 // runOp runs the REAL action for one operation over its gated configuration.
-func runOp(cfg *action.Configuration, op *eng.Op) error {
+func runOp(cfg *action.Configuration, op *eng.Op, x OpExt) error {
 	f := op.Flags
+	var labels map[string]string
+	if x.Label != "" {
+		labels = map[string]string{x.Label: "1"}
+	}
 	ch := eng.BuildChart(op)
 	vals := map[string]interface{}{"v": op.ValsID}
 	var err error
@@ -376,6 +437,8 @@ func runOp(cfg *action.Configuration, op *eng.Op) error {
 		a.Atomic, a.Replace, a.DisableHooks, a.DryRun, a.DryRunOption = f.Atomic, f.Replace, f.NoHooks, f.DryRun, f.DryRunOption
 		a.ClientOnly, a.TakeOwnership = f.ClientOnly, f.TakeOwnership
 		a.Timeout, a.WaitStrategy = time.Second, kube.HookOnlyStrategy // the CLI default of --wait
+		a.Force, a.SkipSchemaValidation, a.SubNotes, a.EnableDNS, a.DisableOpenAPIValidation = x.Force, x.SkipSchema, x.SubNotes, x.EnableDNS, x.NoValidate
+		a.SkipCRDs, a.Labels, a.Description = x.SkipCRDs, labels, x.Description
 		_, err = a.Run(ch, vals)
 	case "upgrade":
 		a := action.NewUpgrade(cfg)
@@ -383,7 +446,24 @@ func runOp(cfg *action.Configuration, op *eng.Op) error {
 		a.Atomic, a.CleanupOnFail, a.DisableHooks, a.DryRun, a.DryRunOption = f.Atomic, f.Cleanup, f.NoHooks, f.DryRun, f.DryRunOption
 		a.MaxHistory, a.TakeOwnership = f.MaxHistory, f.TakeOwnership
 		a.Timeout, a.WaitStrategy = time.Second, kube.HookOnlyStrategy // the CLI default of --wait
+		a.Force, a.Recreate, a.Install = x.Force, x.Recreate, x.ViaUpgrade
+		a.SkipSchemaValidation, a.SubNotes, a.EnableDNS, a.DisableOpenAPIValidation = x.SkipSchema, x.SubNotes, x.EnableDNS, x.NoValidate
+		a.ResetValues, a.ReuseValues, a.ResetThenReuseValues = x.ResetValues, x.ReuseValues, x.ResetThenReuse
+		a.Labels, a.Description = labels, x.Description
 		_, err = a.Run(eng.RelName, ch, vals)
+	case "rollback":
+		a := action.NewRollback(cfg)
+		a.Version, a.CleanupOnFail, a.DisableHooks, a.DryRun, a.MaxHistory = f.Version, f.Cleanup, f.NoHooks, f.IsDry(), f.MaxHistory
+		a.WaitForJobs = f.WaitForJobs
+		a.Force, a.Recreate = x.Force, x.Recreate
+		a.Timeout, a.WaitStrategy = time.Second, kube.HookOnlyStrategy
+		err = a.Run(eng.RelName)
+	case "uninstall":
+		a := action.NewUninstall(cfg)
+		a.KeepHistory, a.DisableHooks, a.DryRun = f.KeepHistory, f.NoHooks, f.IsDry()
+		a.Description = x.Description
+		a.Timeout, a.WaitStrategy = time.Second, kube.HookOnlyStrategy
+		_, err = a.Run(eng.RelName)
 	default:
 		err = fmt.Errorf("conc: unsupported operation kind %q", op.Kind)
 	}
@@ -470,7 +550,7 @@ func Run(c Case) (obs Obs) {
 						o.mu.Unlock()
 					}
 				}()
-				err = runOp(cfg, op)
+				err = runOp(cfg, op, c.ExtOf(i))
 			}()
 			o.mu.Lock()
 			o.obs.Outcome = Classify(err)
@@ -522,7 +602,7 @@ func Run(c Case) (obs Obs) {
 func GateCounts(c Case) []int {
 	out := make([]int, len(c.Ops))
 	for i := range c.Ops {
-		solo := Case{Backend: c.Backend, Init: c.Init, Pre: c.Pre, Ops: []eng.Op{c.Ops[i]}}
+		solo := Case{Backend: c.Backend, Init: c.Init, Pre: c.Pre, Ops: []eng.Op{c.Ops[i]}, Ext: []OpExt{c.ExtOf(i)}}
 		o := Run(solo)
 		out[i] = o.Ops[0].Gates
 	}
